@@ -225,6 +225,15 @@ def _plain(v):
     return isinstance(v, (tuple, list)) and all(_plain(x) for x in v)
 
 
+def _same_plain(v, w):
+    """equal; floats up to single-precision resolution (an attribute recovered from a float32 buffer is the same attribute)"""
+    if isinstance(v, (tuple, list)) and isinstance(w, (tuple, list)):
+        return len(v) == len(w) and all(_same_plain(x, y) for x, y in zip(v, w))
+    if isinstance(v, float) and isinstance(w, float):
+        return v == w or abs(v - w) <= 4e-6 * max(1.0, abs(v), abs(w))
+    return v == w
+
+
 def plain_attribute_diff(a, b):
     """{'<module path>.<attr>': (original, restored)} over public plain-valued instance attributes of all sub-modules (mode flag excluded)"""
     out = {}
@@ -237,7 +246,7 @@ def plain_attribute_diff(a, b):
             if k.startswith("_") or k == "training" or not _plain(v):
                 continue
             w = vars(m2).get(k, "<missing>")
-            if _plain(w) and (list(v) if isinstance(v, (tuple, list)) else v) != (list(w) if isinstance(w, (tuple, list)) else w):
+            if _plain(w) and not _same_plain(v, w):
                 out[(name + "." if name else "") + k] = (v, w)
     return out
 
@@ -360,7 +369,7 @@ def run_cell(cell, seed):
             Xs = lo_ + (hi_ - lo_) * (0.1 + 0.8 * Xs)
             model.train()
             with torch.no_grad():
-                model(X)  # the grid is fitted by the first call (to the training inputs, as in any training run); save points come after it
+                model(X).covariance_matrix  # the grid is fitted by the first EVALUATED call (to the training inputs, as in any training run); save points come after it
         if spec[1] == "rff_lazy":
             model.train()
             with torch.no_grad():
